@@ -24,9 +24,14 @@ type IDCase struct {
 }
 
 type IDRep struct {
-	Kind string // match | foreign | stale | dup   (dup repeats the previous reply)
+	Kind string // match | foreign | stale | dup (repeats the previous reply) | foreign-malformed (foreign ID, header intact, body cut short)
 	ID   uint16 // ID carried (for match = the request's ID)
 }
+
+// knownMalformedForeign is the id of the finding "a datagram with a foreign ID that does not decode
+// aborts the exchange instead of being skipped" (KNOWN_FINDINGS.txt). While it is listed and its
+// probe reproduces, the class foreign-malformed is replaced by well-formed foreign replies.
+const knownMalformedForeign = "dgram-malformed-foreign-aborts"
 
 func genIDCase(stream bool) func(t *rapid.T) IDCase {
 	return func(t *rapid.T) IDCase {
@@ -81,7 +86,15 @@ func genIDCase(stream bool) func(t *rapid.T) IDCase {
 			case k == "stale":
 				c.Replies = append(c.Replies, IDRep{Kind: "stale", ID: c.ID - uint16(rapid.IntRange(1, 3).Draw(t, "age"))})
 			default:
-				c.Replies = append(c.Replies, IDRep{Kind: "foreign", ID: foreign("fid")})
+				kind := "foreign"
+				if rapid.IntRange(0, 5).Draw(t, "malformed") == 0 {
+					if pbt.Known(knownMalformedForeign) {
+						pbt.Excluded(knownMalformedForeign)
+					} else {
+						kind = "foreign-malformed"
+					}
+				}
+				c.Replies = append(c.Replies, IDRep{Kind: kind, ID: foreign("fid")})
 			}
 		}
 		if rapid.IntRange(0, 9).Draw(t, "answered") < 8 {
@@ -146,7 +159,10 @@ func checkID(c IDCase) error {
 	if foreignBefore > 0 {
 		pbt.Sample(fmt.Sprintf("stream=%v", c.Stream), c)
 	}
+	return runID(c, firstMatch)
+}
 
+func runID(c IDCase, firstMatch int) error {
 	q := new(dns.Msg)
 	q.SetQuestion("t.", dns.TypeNULL)
 	q.Id = c.ID
@@ -184,7 +200,11 @@ func checkID(c IDCase) error {
 	cc.OnWrite(func(i int, pk memnet.Packet) {
 		sent = pk.Data
 		for i, r := range c.Replies {
-			cc.Inject(idReply(r.ID, i), srv.LocalAddr())
+			b := idReply(r.ID, i)
+			if r.Kind == "foreign-malformed" {
+				b = b[:len(b)-3] // header and ID intact, RDATA shorter than its RDLENGTH
+			}
+			cc.Inject(b, srv.LocalAddr())
 		}
 	})
 	tmo := 10 * time.Second
@@ -220,6 +240,9 @@ func checkID(c IDCase) error {
 }
 
 func init() {
+	pbt.Probe(knownMalformedForeign, func() error {
+		return runID(IDCase{ID: 7, Timeout: 60, Replies: []IDRep{{Kind: "foreign-malformed", ID: 9}, {Kind: "match", ID: 7}}}, 1)
+	})
 	pbt.Register(pbt.Sub[IDCase]{Name: "id-stream", Weight: 0.5, Gen: genIDCase(true), Check: checkID})
 	pbt.Register(pbt.Sub[IDCase]{Name: "id-datagram", Weight: 0.5, Gen: genIDCase(false), Check: checkID})
 }
